@@ -423,7 +423,7 @@ Verdict IoEngine::execute(const Plan& plan, EventLog& log, Stats& st)
     st.add("event_documents"); st.add("events", ne); st.state("event_contexts", plan.get("alphabet") + "/" + plan.get("ctx"));
   }
   for (const Step& s : plan.steps) {
-    if (is_transport(s.op) || s.op == "ev" || s.op == "gs" || s.op == "gp" || s.op == "go" || s.op == "kp" || s.op == "ko" || s.op == "kh") continue;
+    if (is_transport(s.op) || s.op == "ev" || s.op == "gs" || s.op == "gp" || s.op == "go" || s.op == "kp" || s.op == "ko" || s.op == "kh" || s.op == "kv") continue;
     bool vp = true;
     bool applied = apply_edit(B, s, vp);
     if (applied) { fired++; st.add("fault." + s.op); if (!vp) valid = false; if (s.op == "err") err_end = true; }
@@ -594,7 +594,8 @@ Plan IoEngine::generate(uint64_t seed, uint64_t index, const std::string& tier)
         long long third = (long long)g.below(np); if (third == from || third == to) third = (third + 1) % np;
         stk("ko", {(long long)g.below(6), from, to, third, (long long)g.below(100000)});
       }
-      if (g.chance(1, 4)) stk("kh", {(long long)g.below(np), (long long)g.below(np), (long long)g.below(1000)});
+      if (g.chance(1, 4)) { long long a = (long long)g.below(np), b = (long long)g.below(np); if (a == b && !g.chance(1, 10)) b = (b + 1) % np; stk("kh", {a, b, (long long)g.below(1000)}); }
+      if (g.chance(1, 6)) { long long a = (long long)g.below(np), b = (long long)g.below(np); if (a == b && !g.chance(1, 10)) b = (b + 1) % np; stk("kv", {a, b, (long long)g.below(1000)}); }
     }
     int nc = g.chance(3, 4) ? 0 : (int)g.range(1, 3);
     for (int i = 0; i < nc; i++) stk("cut", {(long long)g.below(4000)});
